@@ -65,7 +65,7 @@ func init() {
 						return false, false
 					}
 					isSize := func(x ast.Expr) bool {
-						call, ok := ast.Unparen(x).(*ast.CallExpr)
+						call, ok := deref(c.Info, x).(*ast.CallExpr) // (also through `n := r.runners.Size()`)
 						if !ok {
 							return false
 						}
@@ -270,11 +270,7 @@ func init() {
 				fld := r.P.Field("jobs", "Assembly", m.field)
 				hasFn := r.P.FuncObj("jobs", m.has)
 				ok := false
-				inspect(h.Decl.Body, func(nd ast.Node) bool {
-					rs, isRs := nd.(*ast.RangeStmt)
-					if !isRs || prog.SelField(hi, rs.X) != fld {
-						return true
-					}
+				for _, rs := range fullLoopsOver(hi, h.Decl.Body, func(e ast.Expr) bool { return prog.SelField(hi, e) == fld }) {
 					inspect(rs.Body, func(mm ast.Node) bool {
 						is, isIf := mm.(*ast.IfStmt)
 						if !isIf {
@@ -285,7 +281,7 @@ func init() {
 							return true
 						}
 						call, isCall := ast.Unparen(u.X).(*ast.CallExpr)
-						if !isCall || r.P.CalleeFunc(hi, call) != hasFn || len(call.Args) != 1 || prog.IdentObj(hi, call.Args[0]) != prog.IdentObj(hi, rs.Value) {
+						if !isCall || r.P.CalleeFunc(hi, call) != hasFn || len(call.Args) != 1 || !rs.IsElem(call.Args[0]) {
 							return true
 						}
 						for _, st := range is.Body.List {
@@ -303,8 +299,7 @@ func init() {
 						}
 						return true
 					})
-					return true
-				})
+				}
 				r.Site(h.Decl.Pos(), "Healthy checks every "+m.field)
 				if !ok {
 					r.Fail(h.Name()+":"+m.field, h.Decl.Pos(), nil, "Assembly.Healthy does not report unhealthy when a member of %s is missing from the registry", m.field)
@@ -317,24 +312,31 @@ func init() {
 			for _, mname := range []string{"runners", "operators"} {
 				fld := r.P.Field("jobs", "Registry", mname)
 				ok := false
-				inspect(pg.Decl.Body, func(nd ast.Node) bool {
-					rs, isRs := nd.(*ast.RangeStmt)
-					if !isRs {
+				// the dead ids: liveness.Purge() itself or a copy of it (slices.Clone, an append loop)
+				isDead := func(e ast.Expr) bool {
+					call, isCall := deref(pi, e).(*ast.CallExpr)
+					if !isCall {
+						return false
+					}
+					if r.P.CalleeFunc(pi, call) == lp {
 						return true
 					}
-					if call, isCall := ast.Unparen(rs.X).(*ast.CallExpr); !isCall || r.P.CalleeFunc(pi, call) != lp {
-						return true
+					if c2, isClone := isCallToNamed(pi, call, "slices", "Clone"); isClone && len(c2.Args) == 1 {
+						inner, isCall := deref(pi, c2.Args[0]).(*ast.CallExpr)
+						return isCall && r.P.CalleeFunc(pi, inner) == lp
 					}
+					return false
+				}
+				for _, rs := range fullLoopsOver(pi, pg.Decl.Body, isDead) {
 					inspect(rs.Body, func(m ast.Node) bool {
 						if call, isCall := m.(*ast.CallExpr); isCall {
-							if sel, isSel := ast.Unparen(call.Fun).(*ast.SelectorExpr); isSel && sel.Sel.Name == "Delete" && prog.SelField(pi, sel.X) == fld && len(call.Args) == 1 && prog.IdentObj(pi, call.Args[0]) == prog.IdentObj(pi, rs.Value) {
+							if sel, isSel := ast.Unparen(call.Fun).(*ast.SelectorExpr); isSel && sel.Sel.Name == "Delete" && prog.SelField(pi, sel.X) == fld && len(call.Args) == 1 && rs.IsElem(call.Args[0]) {
 								ok = true
 							}
 						}
 						return true
 					})
-					return true
-				})
+				}
 				r.Site(pg.Decl.Pos(), "Registry.Purge removes dead ids from "+mname)
 				if !ok {
 					r.Fail(pg.Name()+":"+mname, pg.Decl.Pos(), nil, "Registry.Purge does not remove dead nodes from %s: a dead node stays eligible for the next assembly", mname)
